@@ -13,11 +13,11 @@ from verif.specs import sx
 from verif.specs.sx import X
 
 LEVEL = 'other'
-EXPECTED_MIN = {'quick': 16, 'thorough': 17}
+EXPECTED_MIN = {'quick': 19, 'thorough': 20}
 EXPLANATION = ('PROVED (exact normal form; g = (unit quaternion, translation) symbolic): to_local is left-invariant; world_to_joint maps a rigidly transformed state (g o x, R xd) to the SAME '
                'joint-frame pose and twist (j, jd) and to covariant anchors -- so every joint kernel, being a function of (j, jd), sees identical inputs; com.from_world / to_world / '
                'inv_inertia are covariant; the spring and positional integrators commute with g when gravity is rotated with the scene; spring.joints.resolve is covariant with the '
-               'kernels cut; forward kinematics is equivariant under a transformed free root (direct instance f+h); scan.tree results are permuted, not changed, by every sibling '
+               'kernels cut; the positional PBD kernels _translation_update / _rotation_update and the glue of position_update (argument passing, parent gather / scatter) are covariant; forward kinematics is equivariant under a transformed free root (direct instance f+h); scan.tree results are permuted, not changed, by every sibling '
                'reordering (forests <= 4 links); disconnected components do not couple in the mass matrix (C02/crb_form two-trees).  BOUNDED (not proof): whole-step commutation for '
                'the three pipelines on generated free-rooted models, sibling permutations and merged documents.')
 TRUSTED = ['paper lemma: kernels that are functions of invariants (j, jd) give invariant joint forces; equivariance of the composed step from equivariance of its stages']
@@ -418,9 +418,210 @@ def _native_permutation(n):
   return {'reproduced': False, 'evaluations': evals}
 
 
+
+# ---- positional joint projection (position_update) --------------------------------------------------------------------------------------------
+def _rotI(A, gq, I3):
+  R = sx.qmat([X(e, A) for e in gq])
+  Rm = [[R[a][b].v for b in range(3)] for a in range(3)]
+  out = np.empty((3, 3), dtype=object)
+  for a in range(3):
+    for b in range(3):
+      acc = 0
+      for c in range(3):
+        for d in range(3):
+          acc = A.add(acc, A.mul(A.mul(Rm[a][c], I3[c][d]), Rm[b][d]))
+      out[a][b] = acc
+  return out
+
+
+def _symI(A, tag):
+  iv = np.empty((3, 3), dtype=object)
+  for a in range(3):
+    for b in range(a, 3):
+      iv[a][b] = iv[b][a] = A.var('%s_%d%d' % (tag, a, b))
+  return iv
+
+
+def _qleft(A, gq, r):
+  out = np.empty(r.shape, dtype=object)
+  for idx in np.ndindex(*r.shape[:-1]):
+    out[idx] = [e.v for e in sx.qmul([X(e, A) for e in gq], [X(e, A) for e in r[idx]])]
+  return out
+
+
+def pbd_kernel_covariant(which):
+  """_translation_update / _rotation_update: rigid transform of every argument (positions by g, orientations left-multiplied, inverse inertias R I R^T, the
+  displacement rotated) transforms the returned position increments by R and the returned quaternion increments by left multiplication with g.rot;
+  a zero displacement gives a zero update whatever the other arguments are."""
+  fn_name = '_translation_update' if which == 'translation' else '_rotation_update'
+
+  def run():
+    from verif.engine.opaque import cut
+    from brax.positional import joints
+    from brax.base import Transform
+    A = RingAlg()
+    gq, gt = _g(A)
+    ap, xpp, xpr, ac, xcp, xcr, dx = (A.arr('ap', (1, 3)), A.arr('xpp', (1, 3)), A.arr('xpr', (1, 4)), A.arr('ac', (1, 3)), A.arr('xcp', (1, 3)), A.arr('xcr', (1, 4)),
+                                       A.arr('dx', (1, 3)))
+    A.unit(list(xpr[0]))
+    A.unit(list(xcr[0]))
+    Ip, Ic = _symI(A, 'Ip'), _symI(A, 'Ic')
+    mp, mc = np.array(A.var('mp'), dtype=object), np.array(A.var('mc'), dtype=object)
+    z4 = jp.array([1.0, 0, 0, 0])
+    if which == 'translation':
+      def f(ap, xpp, xpr, Ip, mp, ac, xcp, xcr, Ic, mc, dx):
+        o = joints._translation_update(Transform(pos=ap[0], rot=z4), Transform(pos=xpp[0], rot=xpr[0]), Ip, mp, Transform(pos=ac[0], rot=z4), Transform(pos=xcp[0], rot=xcr[0]), Ic, mc, dx[0])
+        return o[0].pos, o[0].rot, o[1].pos, o[1].rot
+    else:
+      def f(ap, xpp, xpr, Ip, mp, ac, xcp, xcr, Ic, mc, dx):
+        o = joints._rotation_update(Transform(pos=xpp[0], rot=xpr[0]), Ip, Transform(pos=xcp[0], rot=xcr[0]), Ic, dx[0])
+        return o[0].pos, o[0].rot, o[1].pos, o[1].rot
+    T = lambda p_, r_: _apply_T(A, gq, gt, p_, r_)
+    with cut('brax.math:normalize'):
+      H = {'brax.math:normalize': cuts.normalize_ring}
+      I0 = Interp(A, cuts=H)
+      o0 = sym_call(I0, f, Sym(ap), Sym(xpp), Sym(xpr), Sym(Ip), Sym(mp), Sym(ac), Sym(xcp), Sym(xcr), Sym(Ic), Sym(mc), Sym(dx))
+      ap2, _ = T(ap, xpr)
+      xpp2, xpr2 = T(xpp, xpr)
+      ac2, _ = T(ac, xcr)
+      xcp2, xcr2 = T(xcp, xcr)
+      o1 = sym_call(Interp(A, cuts=H), f, Sym(ap2), Sym(xpp2), Sym(xpr2), Sym(_rotI(A, gq, Ip)), Sym(mp), Sym(ac2), Sym(xcp2), Sym(xcr2), Sym(_rotI(A, gq, Ic)), Sym(mc), Sym(_rot_v(A, gq, dx)))
+      zero = np.zeros((1, 3), dtype=object)
+      oz = sym_call(Interp(A, cuts=H), f, Sym(ap), Sym(xpp), Sym(xpr), Sym(Ip), Sym(mp), Sym(ac), Sym(xcp), Sym(xcr), Sym(Ic), Sym(mc), zero.astype(float))
+    res = [ring_equal(A, o1[0], _rot_v(A, gq, np.asarray(o0[0], dtype=object)), name='parent pos increment'), ring_equal(A, o1[2], _rot_v(A, gq, np.asarray(o0[2], dtype=object)), name='child pos increment'),
+           ring_equal(A, o1[1], _qleft(A, gq, np.asarray(o0[1], dtype=object)), name='parent rot increment'), ring_equal(A, o1[3], _qleft(A, gq, np.asarray(o0[3], dtype=object)), name='child rot increment')]
+    for k, nm in enumerate(('parent pos', 'parent rot', 'child pos', 'child rot')):
+      res.append(ring_equal(A, oz[k], np.zeros(np.shape(oz[k])), name='zero displacement -> zero %s increment' % nm))
+    r = combine(res)
+    if r.verdict == REFUTED:
+      r.replay = _native_equivariance(('positional',), 4)
+    r.stats = dict(r.stats or {}, side_notes=len(I0.side_notes))
+    return r
+  return Obligation('C05/positional.joints.%s/covariant' % fn_name, 'brax.positional.joints:%s' % fn_name,
+                    'the PBD %s kernel commutes with every rigid transform g of its arguments (increments rotated / left-multiplied by g.rot), and a zero displacement '
+                    'gives a zero update; all lever arms, orientations, symmetric inverse inertias, inverse masses' % which, run, backend='ring', budget=400,
+                    assumes=('normalize through its verified contract (C09)',))
+
+
+def position_update_covariant(shape='f-(h,s)'):
+  """positional joint projection x_i' = position_update(sys, state), callees through their covariance contracts: world_to_joint (C05/.../invariant: j invariant, anchors
+  covariant), com.inv_inertia (R I R^T), _three_dof_joint_update (a function of the invariant j), _translation_update / _rotation_update (C05/.../covariant).  Proved here:
+  the ARGUMENTS position_update hands to the two PBD kernels in the transformed scene are the g-images of the arguments in the original scene (this covers the rotation of the
+  joint-frame displacement into the world, the parent gather and the masks), and the assembled result (scales, parent scatter, + x_i) is the g-image of the original result."""
+  def run():
+    from verif.engine.opaque import cut, arg
+    from verif.contracts import C04
+    from brax.positional import joints
+    from brax.base import Transform, Motion
+    A = RingAlg()
+    sys = physsys.load(C04.tree_xml(C04.SHAPES[shape]))
+    n = sys.num_links()
+    roots = [i for i in range(n) if sys.link_parents[i] == -1]
+    if any(sys.link_types[i] != 'f' for i in roots):
+      return Result(ERROR, 'harness: the model must be free-rooted')
+    gq, gt = _g(A)
+    xip, xir = A.arr('xip', (n, 3)), A.arr('xir', (n, 4))
+    app, apr, acp, acr = A.arr('app', (n, 3)), A.arr('apr', (n, 4)), A.arr('acp', (n, 3)), A.arr('acr', (n, 4))
+    for i in range(n):
+      A.unit(list(xir[i]))
+      A.unit(list(apr[i]))
+      A.unit(list(acr[i]))
+    djp, djr = A.arr('djp', (n, 3)), A.arr('djr', (n, 3))       # joint-frame displacement: a function of the invariant j -> identical in both runs
+    jpv, jrv = A.arr('jp', (n, 3)), A.arr('jr', (n, 4))
+    iv = np.array([_symI(A, 'iinv%d' % l) for l in range(n)], dtype=object)
+    z3_ = np.zeros((n, 3), dtype=object)
+    T = lambda p_, r_: _apply_T(A, gq, gt, p_, r_)
+
+    def is_zero_row(row):
+      return all(isc(e) and e == 0 for e in np.asarray(row, dtype=object).reshape(-1))
+
+    def mk(run_id, rec, presets):
+      def kernel(name, disp_arg):
+        def h(I, P, ins):
+          d = np.asarray(I.lift(arg(P, ins, disp_arg)), dtype=object)
+          if run_id == 0:
+            outs = I.fresh_outputs(P, tag=name)
+            outs = [np.asarray(o, dtype=object).copy() for o in outs]
+            for l in range(n):
+              if is_zero_row(d[l]):            # kernel clause "zero displacement -> zero update"
+                for o in outs:
+                  o[l] = 0
+            presets[name] = outs
+          else:
+            o0 = presets[name]
+            outs = [_rot_v(A, gq, o0[0]), _qleft(A, gq, o0[1]), _rot_v(A, gq, o0[2]), _qleft(A, gq, o0[3])]
+            for l in range(n):
+              if is_zero_row(d[l]):
+                for o in outs:
+                  o[l] = 0
+          rec[name] = (list(P['argnames']), [I.lift(x) if is_sym(x) else np.asarray(x) for x in ins])
+          return outs
+        return h
+      ap_, apq_, ac_, acq_, I_ = (app, apr, acp, acr, iv) if run_id == 0 else (*T(app, apr), *T(acp, acr), np.array([_rotI(A, gq, iv[l]) for l in range(n)], dtype=object))
+      return {'brax.kinematics:world_to_joint': lambda I, P, ins: [jpv, jrv, z3_, z3_, ap_, apq_, ac_, acq_],
+              'brax.positional.joints:_three_dof_joint_update': lambda I, P, ins: [djp, djr],
+              'brax.com:inv_inertia': lambda I, P, ins: [I_],
+              'brax.positional.joints:_translation_update': kernel('translation', 'dx'),
+              'brax.positional.joints:_rotation_update': kernel('rotation', 'dq')}
+
+    def f(p, r):
+      zz = jp.zeros((n, 3))
+      st = Stub(x_i=Transform(pos=p, rot=r), x=Transform(pos=zz, rot=jp.tile(jp.array([1.0, 0, 0, 0]), (n, 1))), xd=Motion(ang=zz, vel=zz))
+      o = joints.position_update(sys, st)
+      return o.pos, o.rot
+    targets = ('brax.kinematics:world_to_joint', 'brax.positional.joints:_three_dof_joint_update', 'brax.com:inv_inertia', 'brax.positional.joints:_translation_update',
+               'brax.positional.joints:_rotation_update')
+    rec0, rec1, presets = {}, {}, {}
+    with cut(*targets):
+      I0 = Interp(A, cuts=mk(0, rec0, presets))
+      p0, r0 = sym_call(I0, f, Sym(xip), Sym(xir))
+      xip2, xir2 = T(xip, xir)
+      I1 = Interp(A, cuts=mk(1, rec1, presets))
+      p1, r1 = sym_call(I1, f, Sym(xip2), Sym(xir2))
+    if set(rec0) != {'translation', 'rotation'} or set(rec1) != {'translation', 'rotation'}:
+      return Result(REFUTED, 'position_update does not go through _translation_update and _rotation_update (calls seen: %s)' % sorted(rec0), replay=_native_equivariance(('positional',), 4))
+    res = []
+    nr = [i for i in range(n) if i not in roots]
+    # arguments of the kernels: run 2 = g-image of run 1 (non-root links; for free roots the displacement is identically zero in both runs)
+    for name in ('translation', 'rotation'):
+      (names, a0), (_, a1) = rec0[name], rec1[name]
+      by0, by1 = {}, {}
+      for nm, x, y in zip(names, a0, a1):
+        by0.setdefault(nm, []).append(np.asarray(x, dtype=object))
+        by1.setdefault(nm, []).append(np.asarray(y, dtype=object))
+      disp = 'dx' if name == 'translation' else 'dq'
+      for l in roots:
+        res.append(ring_equal(A, by0[disp][0][l], np.zeros(3), name='%s: root displacement is zero' % name))
+        res.append(ring_equal(A, by1[disp][0][l], np.zeros(3), name='%s: root displacement is zero (transformed)' % name))
+      res.append(ring_equal(A, by1[disp][0][nr], _rot_v(A, gq, by0[disp][0])[nr], name='%s: displacement rotated' % name))
+      for nm in [k for k in ('pos_p', 'pos_c', 'xi_p', 'xi_c') if k in by0]:
+        pw, rw = T(by0[nm][0], by0[nm][1])
+        res.append(ring_equal(A, by1[nm][0][nr], pw[nr], name='%s: %s.pos moved by g' % (name, nm)))
+        if nm.startswith('xi'):
+          res.append(ring_equal(A, by1[nm][1][nr], rw[nr], name='%s: %s.rot moved by g' % (name, nm)))
+      for nm in ('i_inv_p', 'i_inv_c'):
+        want = np.array([_rotI(A, gq, by0[nm][0][l]) for l in range(n)], dtype=object)
+        res.append(ring_equal(A, by1[nm][0][nr], want[nr], name='%s: %s = R I R^T' % (name, nm)))
+      for nm in [k for k in ('mass_inv_p', 'mass_inv_c') if k in by0]:
+        res.append(ring_equal(A, by1[nm][0], by0[nm][0], name='%s: %s unchanged' % (name, nm)))
+    # assembled result
+    want_p, _ = T(np.asarray(p0, dtype=object), xir)
+    res += [ring_equal(A, p1, want_p, name="x_i'.pos moved by g"), ring_equal(A, r1, _qleft(A, gq, np.asarray(r0, dtype=object)), name="x_i'.rot left-multiplied by g.rot")]
+    r = combine(res)
+    if r.verdict == REFUTED:
+      r.replay = _native_equivariance(('positional',), 4)
+    r.stats = dict(r.stats or {}, opaque_calls=len(I0.calls) + len(I1.calls), argument_clauses=len(res) - 2)
+    return r
+  return Obligation('C05/positional.joints.position_update/covariant[%s]' % shape, 'brax.positional.joints:position_update',
+                    'position_update(g o state) = g o position_update(state): the arguments handed to _translation_update / _rotation_update in the transformed scene are the '
+                    'g-images of the original arguments (rotation of the joint-frame displacement into the world, parent gather, masks) and the assembled result (scales, parent '
+                    'scatter, + x_i) is the g-image of the original one; for all CoM poses, anchors, inverse inertias, joint-frame displacements and g', run, backend='ring', budget=900,
+                    assumes=('C05/kinematics.world_to_joint/invariant', 'C05/com.from_world,to_world,inv_inertia/covariant', 'C05/positional.joints._translation_update/covariant',
+                             'C05/positional.joints._rotation_update/covariant', 'paper lemma: the joint-frame displacement kernel is a function of the invariant j'))
+
 def obligations(tier):
   Q, Th = ('quick', 'thorough'), ('thorough',)
-  obs = [to_local_invariant(), w2j_invariant('h', Q), w2j_invariant('sh', Th), com_covariant(), integrator_covariant('spring'), integrator_covariant('positional'), resolve_covariant(),
+  obs = [to_local_invariant(), w2j_invariant('h', Q), w2j_invariant('sh', Th), com_covariant(), integrator_covariant('spring'), integrator_covariant('positional'), resolve_covariant(), pbd_kernel_covariant('translation'), pbd_kernel_covariant('rotation'), position_update_covariant(),
          forward_equivariant(Q), sibling_permutation(), bounded(tier)]
   # premises: "every quantity is carried in an explicit frame and moved with Transform.do / inv_do / math.rotate" -- the frame-moving helpers are what they claim to be
   # (the corresponding C09 obligations, carried here as premises so that a slip in one of them is reported against C05 as well)
